@@ -62,7 +62,11 @@ def gen_quarantine_script(rng):
     # predicts every counter after the restart; a blob damaged below what its index file describes is not (wildcards)
     modelled = rng.random() < 0.7
     # the name of the quarantine directory is configuration (listings print it as `corrupted/` whatever it is)
-    L = ['cfg K=4 dup=1 group=2 bloom=none init=%s runtime=%s%s' % (rng.choice(['eager', 'lazy']), rng.choice(['mt', 'ct']), rng.choice(['', '', ' corrdir=bad.blobs', ' corrdir=q'])), 'open']
+    # with `ignore_corrupted` an unreadable blob stays where it is and is not loaded: its id is taken all the same
+    ign = rng.random() < 0.25
+    L = ['cfg K=4 dup=1 group=2 bloom=none init=%s runtime=%s%s%s' % (rng.choice(['eager', 'lazy']), rng.choice(['mt', 'ct']), rng.choice(['', '', ' corrdir=bad.blobs', ' corrdir=q']), ' ignore=1' if ign else ''), 'open']
+    if ign:
+        L.append('nop ignore')
     seed = 0
     nb = rng.choice([1, 1, 2, 3])
     for b in range(nb):
@@ -131,13 +135,13 @@ def oracle(lines, io, spec=None):
                     seen_ids.add(int(n.split('.')[-2]))
                 if int(c['corrupted']) != len(quar):
                     fails.append('line %d: corrupted_blobs_count = %s but %d blob files are in the corrupted directory (%s)' % (i, c['corrupted'], len(quar), io[i + 1][:160]))
-                if int(c['blobs']) != len(work):
+                if int(c['blobs']) != len(work) and 'nop ignore' not in lines:
                     fails.append('line %d: blobs_count = %s but %d blob files are in the work directory' % (i, c['blobs'], len(work)))
                 if seen_ids and int(c['next']) <= max(seen_ids):
                     fails.append('line %d: next_blob_id = %s is not above every id ever present (%d)' % (i, c['next'], max(seen_ids)))
     # disk_used = sum of the sizes of the blob and index files in the work dir
     for i, l in enumerate(lines):
-        if l == 'disk' and i + 1 < len(io) and lines[i + 1] == 'ls' and io[i].startswith('disk ') and io[i + 1].startswith('ls'):
+        if l == 'disk' and i + 1 < len(io) and lines[i + 1] == 'ls' and io[i].startswith('disk ') and io[i + 1].startswith('ls') and 'nop ignore' not in lines:
             try:
                 used = int(io[i].split()[1])
             except ValueError:
